@@ -91,7 +91,7 @@ class Run(object):
                 continue
             self.budget[idx] = count
             self.sems[idx].release()
-            if not self.main.acquire(timeout=60):
+            if not self.main.acquire(timeout=20):
                 raise Diverged('deadlock or runaway thread %d' % idx)
         for t in threads:
             t.join(10)
